@@ -278,7 +278,11 @@ def h_ansatz(env, which, n_mos=2, n_electrons=2, spin=0, utd=False, signs=None, 
         from tangelo.toolboxes.ansatz_generator.adapt_ansatz import ADAPTAnsatz
         from harness.c07 import _pool
         picks = [int(x) for x in which.split(":")[1].split(",")]
-        pool = _pool("jw", utd)
+        pool = _pool("jw", utd, 2 * n_mos)
+        if n_mos > 2:
+            # prefer operators whose Pauli words differ in LENGTH (the interesting ones for any re-ordering of words)
+            mixed = [op for op in pool if len({len(w) for w in op.terms}) > 1]
+            pool = mixed or pool
         a = ADAPTAnsatz(2 * n_mos, n_electrons, spin, {"mapping": "jw", "up_then_down": utd})
         a.build_circuit()
         for p in picks:
@@ -406,6 +410,8 @@ def shapes(tier, seed):
         for z in (zs if tier == "thorough" else zs[:1]):
             out.append(Shape(f"ansatz/{which}/{2 * nm_}q/history/zero{z}", h_ansatz,
                              dict(which=which, n_mos=nm_, n_electrons=ne_, spin=0, utd=False, signs=(1, -1), history=(z, None)), modules=MODS, max_paths=64))
+    for picks in ("0,1",) + (("2,5", "3") if tier == "thorough" else ()):
+        out.append(Shape(f"ansatz/ADAPT/6q/{picks}/utd0", h_ansatz, dict(which=f"ADAPT:{picks}", n_mos=3, utd=False, signs=(1, -1)), modules=MODS, max_paths=64))
     out.append(Shape("ansatz/UCC1", h_ansatz, dict(which="UCC1"), modules=MODS))
     out.append(Shape("ansatz/UCC3", h_ansatz, dict(which="UCC3"), modules=MODS))
     out.append(Shape("canary/ansatz/UCCSD", h_ansatz, dict(which="UCCSD", canary=True), modules=MODS, canary=True, max_paths=64))
